@@ -23,6 +23,7 @@ pub struct Ctx {
     pub issuer_as_only: ResourceCert,
     /// a CA (key k2) under the trimming policy whose certificate claims more than the trust anchor holds; validated: a1, a2
     pub issuer_trimmed: ResourceCert,
+    pub issuer_trimmed_as: ResourceCert,
     ee_cache: HashMap<String, Vec<u8>>,
 }
 
@@ -40,7 +41,7 @@ fn trimmed_claim() -> (rpki::repository::resources::IpResources, rpki::repositor
 
 impl Ctx {
     pub fn new() -> Self {
-        let pki = Pki::new(3);
+        let pki = Pki::new(4);
         let router = router_identity();
         let now = Time::now();
         let wide = Validity::new(now - chrono::TimeDelta::try_days(30).unwrap(), now + chrono::TimeDelta::try_days(30).unwrap());
@@ -57,16 +58,22 @@ impl Ctx {
             validity: Some(wide),
         };
         let issuer_as_only = Cert::decode(Bytes::from(build_cert(&pki, &ca, &router))).unwrap().validate_ca_at(&issuer, true, now).expect("AS-only CA validates");
-        let issuer_trimmed = {
+        // two of them: one that claims addresses only (key k2), one that claims AS numbers only (key k3) - an EE certificate can then
+        // carry exactly its issuer's extensions
+        let mut trimmed = Vec::new();
+        for (key, as_only) in [("k2", false), ("k3", true)] {
+            use rpki::repository::resources::{AsResources, IpResources};
             let (v4, v6, asn) = trimmed_claim();
+            let raw = if as_only { (IpResources::missing(), IpResources::missing(), asn) } else { (v4, v6, AsResources::missing()) };
             let ca = CertParams {
-                kind: "ca".into(), key: "k2".into(), sig_key: "k0".into(), aki: "k0".into(), ski_ok: true, tamper: "none".into(), nb: 0, na: 2,
-                policy: "trim".into(), v4: rc("missing", &[]), v6: rc("missing", &[]), asn: rc("missing", &[]), serial: 3, raw: Some((v4, v6, asn)),
+                kind: "ca".into(), key: key.into(), sig_key: "k0".into(), aki: "k0".into(), ski_ok: true, tamper: "none".into(), nb: 0, na: 2,
+                policy: "trim".into(), v4: rc("missing", &[]), v6: rc("missing", &[]), asn: rc("missing", &[]), serial: 3, raw: Some(raw),
                 validity: Some(wide),
             };
-            Cert::decode(Bytes::from(build_cert(&pki, &ca, &router))).unwrap().validate_ca_at(&issuer, true, now).expect("trimmed CA validates")
-        };
-        Ctx { pki, router, issuer, issuer_as_only, issuer_trimmed, ee_cache: HashMap::new() }
+            trimmed.push(Cert::decode(Bytes::from(build_cert(&pki, &ca, &router))).unwrap().validate_ca_at(&issuer, true, now).expect("trimmed CA validates"));
+        }
+        let (issuer_trimmed_as, issuer_trimmed) = (trimmed.pop().unwrap(), trimmed.pop().unwrap());
+        Ctx { pki, router, issuer, issuer_as_only, issuer_trimmed, issuer_trimmed_as, ee_cache: HashMap::new() }
     }
 
     /// EE certificate for an object of `kind` with EE facet `ee` and coverage facet `cover`.
@@ -150,8 +157,8 @@ impl Ctx {
         let p = CertParams {
             kind: if ee == "isca" { "ca".into() } else { "ee".into() }, key: "e0".into(),
             // the "ipinherit" object is issued by the AS-only CA (key k1)
-            sig_key: if ee == "wrongissuer" || ee == "overclaim" { "k2".into() } else if cover == "ipinherit" { "k1".into() } else { "k0".into() },
-            aki: if ee == "akibad" || ee == "overclaim" { "k2".into() } else if cover == "ipinherit" { "k1".into() } else { "k0".into() },
+            sig_key: if ee == "overclaim" && kind == "aspa" { "k3".into() } else if ee == "wrongissuer" || ee == "overclaim" { "k2".into() } else if cover == "ipinherit" { "k1".into() } else { "k0".into() },
+            aki: if ee == "overclaim" && kind == "aspa" { "k3".into() } else if ee == "akibad" || ee == "overclaim" { "k2".into() } else if cover == "ipinherit" { "k1".into() } else { "k0".into() },
             ski_ok: ee != "skibad", tamper: "none".into(), nb: 0, na: 2, policy: pol.into(), v4, v6, asn, serial: 4711, raw, validity: Some(validity),
         };
         let mut d = build_cert(&self.pki, &p, &self.router);
@@ -364,7 +371,7 @@ pub fn replay(args: &[String]) {
             let mode = format!("{}{}{}", if kind == "roa" && fam != "v4" { format!(":{fam}") } else { String::new() }, if pol == "trim" { ":trim" } else { "" }, if strict { "" } else { ":relaxed" });
             let r = guarded(|| {
                 let (bytes, revoked) = assemble(&mut ctx, c);
-                let issuer = if c["f"]["cover"] == "ipinherit" { &ctx.issuer_as_only } else if c["f"]["ee"] == "overclaim" { &ctx.issuer_trimmed } else { &ctx.issuer };
+                let issuer = if c["f"]["cover"] == "ipinherit" { &ctx.issuer_as_only } else if c["f"]["ee"] == "overclaim" { if kind == "aspa" { &ctx.issuer_trimmed_as } else { &ctx.issuer_trimmed } } else { &ctx.issuer };
                 verdicts_under(&ctx, issuer, &kind, bytes, revoked, strict)
             });
             match r {
